@@ -31,8 +31,8 @@ static char in_a[LA + 1], in_b[LB + 1]; static char bbuf[LB + 1]; static char st
 /* dispatch cuts: c_str / instance(obj, C_Str) on a String are String's own instance (C08), len/get unused */
 static struct C_Str cv_cstr = { String_C_Str };
 var type_of(var self) { return HDR(self)->type; }
-var method_at_offset(var self, var cls, size_t offset, const char* m) { __CPROVER_assert(0, "harness: c_str of a String does not need the method table"); return NULL; }
-var instance(var self, var cls) { __CPROVER_assert(cls == C_Str, "harness: instance(obj, C_Str)"); return HDR(self)->type == String ? &cv_cstr : NULL; }
+var method_at_offset(var self, var cls, size_t offset, const char* m) { CV_LIMIT(0, "harness: c_str of a String does not need the method table"); return NULL; }
+var instance(var self, var cls) { CV_LIMIT(cls == C_Str, "harness: instance(obj, C_Str)"); return HDR(self)->type == String ? &cv_cstr : NULL; }
 size_t len(var self) { return 1; } var get(var self, var key) { return sb; }
 int64_t c_int(var x) { return ((struct Int*)x)->val; }
 int print_to_with(var out, int pos, const char* fmt, var args) { return pos; }
